@@ -58,6 +58,8 @@ func init() {
 					typed += []string{" ", " # ", "(", ")", " \"", "#", " "}[r.Intn(7)] + randPrintable(r, class, 24)
 				}
 				extra = "/long"
+				// two hundred reads, each with its redisplay: the watchdog is for hangs, not for long sessions
+				sp.Patience = 10
 			}
 			switch r.Intn(6) {
 			case 0:
